@@ -79,8 +79,9 @@ pub struct NetworkBottleneck {
 impl NetworkBottleneck {
     pub fn new(network: Network, window: Duration, queue_pps: Option<usize>) -> Self {
         let pps = network.pps.unwrap_or(queue_pps.unwrap_or(usize::MAX));
-        // average delay, based on window and limit
-        let added_delay = window / pps as u32;
+        // average delay, based on window and limit (limits beyond u32::MAX
+        // saturate instead of being truncated, which could divide by zero)
+        let added_delay = window / u32::try_from(pps).unwrap_or(u32::MAX);
 
         Self {
             network,
